@@ -162,6 +162,11 @@ def atoms_for(w, facts, t):
             pos = k == "truthy"
             if x == t:
                 atoms.append(SL.L_len(">=", 1) if pos else SL.L_len("==", 0))
+            elif x == fromhex:
+                # bytes.fromhex(t) is non-empty / empty: at least one byte pair / only whitespace
+                ws = SL.star(SL.sym(("chars", SL.HEXWS)))
+                atoms.append(("and", SL.L_fromhex(), notl(ws)) if pos else ws)
+                is_str = True
             elif is_call(x) and x[1].startswith("method:") and x[2] == (t,) and x[1][7:] in _STRPRED:
                 lang = SL.L_allchars(*_STRPRED[x[1][7:]])
                 atoms.append(lang if pos else notl(lang))
@@ -195,6 +200,12 @@ def atoms_for(w, facts, t):
                 pos = k == "eq"
                 if q == t and is_call(p, "method:lower") and p[2] == (t,):
                     atoms.append(SL.L_lower_fixed() if pos else notl(SL.L_lower_fixed()))
+                    break
+                if q == t and is_call(p, "method:hex") and p[2] == (fromhex,):
+                    # bytes.fromhex(t).hex() == t: t is the canonical (lower-case, unspaced) rendering
+                    h = SL.sym(("chars", SL.HEXLOW))
+                    lang = SL.star(SL.cat(h, h))
+                    atoms.append(lang if pos else notl(lang))
                     break
                 if q == t and is_call(p, "method:upper") and p[2] == (t,):
                     atoms.append(SL.L_upper_fixed() if pos else notl(SL.L_upper_fixed()))
